@@ -42,6 +42,7 @@ fn cfg_for(config: &str) -> GenCfg {
     "v-td-crash" => { c.class = Class::V; c.crash = true; }
     "v-bu-big" => { c.class = Class::V; c.bottom_up = 70; c.td_between = true; c.big = true; }
     "x-any-crash" => { c.class = Class::X; c.crash = true; }
+    "x-hidden-crash-bu" | "x-overlap-crash-bu" | "x-any-crash-bu" => { c.class = Class::X; c.crash = true; c.bottom_up = 50; c.td_between = true; }
     "bu-big-replay" => { c.replays = 0b0011; c.bottom_up = 100; c.big = true; }
     "v-bu" => { c.class = Class::V; c.bottom_up = 50; c.td_between = true; }
     "m-td" => { c.class = Class::M; }
